@@ -4,9 +4,11 @@ import (
 	"context"
 	"errors"
 	"fmt"
+	"strings"
 
 	"connectrpc.com/connect"
 	"github.com/streamingfast/dgrpc"
+	"github.com/streamingfast/substreams/manifest"
 	"github.com/streamingfast/substreams/pipeline/exec"
 	sym "github.com/streamingfast/substreams/zz_verifsym"
 	"google.golang.org/grpc/codes"
@@ -59,4 +61,97 @@ func VerifC16ErrorMapping() {
 	}
 	sym.Assert((ce.Code() == connect.CodeInvalidArgument) == deterministic, "tier1-maps-deterministic-failures-and-only-them-to-invalid-argument")
 	sym.Reach("mapped")
+}
+
+// VerifC16JobRetry: a tier2 job (the real Tier2Service.processRange, scripted WASM runtime)
+// one of whose file writes fails transiently — any one of them; the store consumes the
+// writer's content before failing — either retries the write itself or reports the failure
+// (the worker then retries the job: VerifC16Worker); in both cases no file is left that
+// differs from a clean run's file, and the job run again on whatever the attempt left
+// completes with the clean run's results: nothing is computed from an incomplete store or a
+// missing output, nothing is written from an exhausted reader.
+func VerifC16JobRetry() {
+	manifest.TestUseSimpleHash = true
+	segSize := uint64(sym.Param("BLOCKS", 2))
+	fake := &c07Fake{segSize: segSize, graph: sym.Param("GRAPH", 0), emit: sym.Byte("emit"), keys: byte(sym.Param("KEYS", 2)), vals: sym.BytesN("vals", 2), wals: sym.BytesN("wals", 2)}
+	sym.Assume(fake.emit < 1<<segSize)
+	stages := []uint32{0, 1}
+	if sym.Choice("last-stage-alone", 2) == 1 {
+		stages = []uint32{1}
+	}
+
+	defer sym.RemoveURLStores()
+	clean, cleanURL := sym.NewURLStore("clean")
+	for _, st := range stages {
+		if err := c07Job(cleanURL, st, 0, segSize, fake); err != nil {
+			sym.Unreachable("clean-job-completes")
+			return
+		}
+	}
+	faulty, faultyURL := sym.NewURLStore("faulty")
+	failedStage := stages[sym.Choice("failing-job", len(stages))]
+	for _, st := range stages {
+		if st == failedStage {
+			// the k-th write of this job fails (natively writes cannot be made to fail: the replay
+			// then checks the fault-free run of the same sequence)
+			faulty.FailWriteNumber(1 + sym.Choice("failing-write", sym.Param("WRITES", 6)))
+			err := c07Job(faultyURL, st, 0, segSize, fake)
+			if !faulty.FailWritePending() && !sym.Native() {
+				sym.Reach("write-fault-injected")
+			}
+			faulty.FailWriteNumber(0)
+			if err != nil {
+				// the job gave up: the worker retries it (VerifC16Worker)
+				sym.Reach("job-failed")
+			}
+			// whatever the attempt left is made of complete files of a clean run
+			for _, name := range faulty.Names() {
+				c := name
+				if strings.HasSuffix(c, ".kv") {
+					c = strings.TrimSuffix(c, ".kv") + ".partial"
+				}
+				a, ok := clean.Get(c)
+				if !ok {
+					a, ok = clean.Get(name)
+				}
+				sym.Assert(ok, "failed-attempt-leaves-no-file-a-clean-run-does-not-leave")
+				if ok {
+					b, _ := faulty.Get(name)
+					c07SameFile(c, a, b)
+				}
+			}
+		}
+		// the (re)tried job
+		if err := c07Job(faultyURL, st, 0, segSize, fake); err != nil {
+			sym.Unreachable("retried-job-completes")
+			return
+		}
+	}
+	present := map[string]bool{}
+	for _, name := range faulty.Names() {
+		c := name
+		if strings.HasSuffix(c, ".kv") {
+			c = strings.TrimSuffix(c, ".kv") + ".partial"
+		}
+		present[c] = true
+		a, ok := clean.Get(c)
+		if !ok {
+			a, ok = clean.Get(name)
+		}
+		sym.Assert(ok, "no-file-a-clean-run-does-not-leave")
+		if ok {
+			b, _ := faulty.Get(name)
+			c07SameFile(c, a, b)
+		}
+	}
+	for _, name := range clean.Names() {
+		c := name
+		if strings.HasSuffix(c, ".kv") {
+			c = strings.TrimSuffix(c, ".kv") + ".partial"
+		}
+		if strings.Contains(name, "/states/") || strings.HasPrefix(name, "tag/"+c07OutHash+"/outputs/") {
+			sym.Assert(present[c], "retried-job-leaves-the-result-it-is-run-for")
+		}
+	}
+	sym.Reach("compared")
 }
